@@ -121,6 +121,21 @@ def canon_yields(gen):
     return out
 
 
+CRASH_SENTINEL = [("C", [], []), ("C", [], [])]      # a yield sequence the model can never produce
+
+
+def run_yields(gen_fn, arrs, thr):
+    """list(generator) with exceptions canonicalised: (yields, None) | (sentinel, 'Type: msg')."""
+    try:
+        return canon_yields(gen_fn(arrs, thr)), None
+    except Exception as e:  # noqa: BLE001
+        return list(CRASH_SENTINEL), f"{type(e).__name__}: {str(e)[:200]}"
+
+
+def jimpl(ys, err):
+    return [["X", err]] if err else [jyield(y) for y in ys]
+
+
 def coq_yield(y):
     if y[0] == "F":
         return Raw(f"(YF {coq(y[1])} {coq(cq(y[2]))})")
@@ -241,7 +256,8 @@ def perms_ok(probs, perms):
 # --------------------------------------------------------------------------------------
 # input generators (dyadic, with a mantissa budget)
 # --------------------------------------------------------------------------------------
-TINY_EXPS = [44, 45, 46, 46, 47, 48, 50]      # 2^-46 = 1.42e-14 is just ABOVE the cut-off, 2^-47 just below
+TINY_EXPS = [27, 30, 34, 40, 44, 45, 46, 46, 47, 48, 50]   # 2^-27..2^-46 lie in (1e-14, 1e-8): ABOVE the cut-off (2^-46 = 1.42e-14
+                                                            # just above), 2^-47.. below
 
 
 def dyadic_vec(rng, n, kmax):
@@ -304,7 +320,7 @@ def with_tiny(rng, v, e):
 def gen_probs(rng, tier, budget=51, force_tiny=None):
     """1..4 bases; returns (probs, K) with K = sum of unit exponents <= budget."""
     nb = int(rng.choice([1, 2, 2, 3, 3, 4]))
-    tiny = bool(rng.integers(0, 4) == 0) if force_tiny is None else force_tiny
+    tiny = bool(rng.integers(0, 3) == 0) if force_tiny is None else force_tiny
     tiny_at = int(rng.integers(0, nb)) if tiny else -1
     e = int(rng.choice(TINY_EXPS)) if tiny else 0
     avail = budget - e
@@ -317,7 +333,8 @@ def gen_probs(rng, tier, budget=51, force_tiny=None):
             v, _ = dyadic_vec(rng, n, 3)
             v, k = with_tiny(rng, v, e)
         elif tiny:
-            v, k = dyadic_vec(rng, n, 1 if avail >= 1 else 0)
+            others_left = sum(1 for bb in range(b, nb) if bb != tiny_at)
+            v, k = dyadic_vec(rng, n, max(0, min(3, avail // max(1, others_left))))
             avail -= k
         else:
             share = (avail - K) // max(1, nb - b)
@@ -463,11 +480,12 @@ def generate(rng, tier, outdir):
         if tree_size(probs) > 150000:
             skipped += 1
             continue
-        ys = canon_yields(GEN_SORTED(arrays(probs), float(thr)))
+        ys, err = run_yields(GEN_SORTED, arrays(probs), float(thr))
+        w.count("sorted.outcome", "crashed" if err else "ok")
         fuel = 2 * tree_size(probs) + 2
         w.add("sorted", "chk_sorted",
               (coq_probs(probs), cq(thr), Raw(f"(N.to_nat {fuel}%N)"), cq(0), cq(TOLC), [coq_yield(y) for y in ys]),
-              dict(kind="sorted", probs=[[jq(x) for x in v] for v in probs], thr=jq(thr), impl=[jyield(y) for y in ys]),
+              dict(kind="sorted", probs=[[jq(x) for x in v] for v in probs], thr=jq(thr), impl=jimpl(ys, err)),
               nontrivial=(len(ys) > 1))
         w.count("sorted.bases", len(probs))
         w.count("sorted.yields", min(len(ys), 20))
@@ -484,11 +502,12 @@ def generate(rng, tier, outdir):
             continue
         perms = argsort_perms(probs)
         w.contract("argsort_is_descending_permutation", perms_ok(probs, perms))
-        ys = canon_yields(GEN_UNSORTED(arrays(probs), float(thr)))
+        ys, err = run_yields(GEN_UNSORTED, arrays(probs), float(thr))
+        w.count("unsorted.outcome", "crashed" if err else "ok")
         w.add("unsorted", "chk_unsorted",
               (coq_probs(probs), perms, cq(thr), cq(0), cq(TOLC), [coq_yield(y) for y in ys]),
               dict(kind="unsorted", probs=[[jq(x) for x in v] for v in probs], thr=jq(thr), perms=perms,
-                   impl=[jyield(y) for y in ys]),
+                   impl=jimpl(ys, err)),
               nontrivial=(len(ys) > 1))
         w.count("unsorted.ties", "ties" if any(len(set(v)) < len(v) for v in probs) else "distinct")
         w.count("unsorted.yields", min(len(ys), 20))
@@ -514,6 +533,8 @@ def generate(rng, tier, outdir):
         w.count("weights.N", "inf" if N == "inf" else ("integer" if N.denominator == 1 else "fractional"))
         w.count("weights.samples_needed", min(stub.calls[0][1], 33) if stub.calls else 0)
         w.count("weights.tiny_entries", "yes" if any(0 < x < Fraction(1, 1 << 40) for v in probs for x in v) else "no")
+        w.count("weights.entries_between_cutoff_and_1e-8",
+                ("sampled-tail" if stub.calls else "no-sampling") if any(ATOL < x < Fraction(1, 10**8) for v in probs for x in v) else "none")
         w.count("weights.choice_calls", min(len(stub.calls), 12))
 
     # ---------------- malformed requests ----------------
@@ -539,7 +560,7 @@ def generate(rng, tier, outdir):
     attempts = 0
     while law_done < n_law and attempts < 60 * n_law:
         attempts += 1
-        probs, K = gen_probs(rng, tier, force_tiny=bool(rng.integers(0, 6) == 0))
+        probs, K = gen_probs(rng, tier, force_tiny=bool(rng.integers(0, 3) == 0))
         if len(probs) > 3 or any(len(v) > 4 for v in probs):
             continue
         N = Fraction(int(rng.integers(1, 9)), int(rng.choice([1, 1, 2])))
@@ -563,6 +584,7 @@ def generate(rng, tier, outdir):
                    expected=[[list(k), jq(ew.get(k, Fraction(0)))] for k in keys],
                    exact_keys=[list(k) for k in leaves[0][3]]),
               nontrivial=True)
+        w.count("law.small_entries", "yes" if any(ATOL < x < Fraction(1, 10**8) for v in probs for x in v) else "no")
         w.count("law.leaves", len(leaves))
         w.count("law.samples_needed", leaves[0][1].calls[0][1])
 
@@ -613,7 +635,8 @@ def enumerate_law(probs, N, limit=48, max_samples=3):
             kk = tuple(int(i) for i in k)
             ew[kk] = ew.get(kk, Fraction(0)) + pr * fr(v[0])
     total = sum(l[2] for l in leaves)
-    assert abs(total - 1) < Fraction(1, 10**9), f"answer sequences do not exhaust the law: {float(total)}"
+    if abs(total - 1) >= Fraction(1, 10**9):      # the p arguments did not form distributions: leave it to the comparison
+        return None
     return leaves, ew
 
 
@@ -793,9 +816,11 @@ def judge_weights(case):
         if len(counted) > math.ceil(N):
             problems.append(f"{len(counted)} entries > ceil(N)={math.ceil(N)}")
         tot = sum(wt for wt, _ in got.values())
-        slack = N / 10**9 + N * nm * ATOL
+        # "sum to N (up to the 1e-14 cutoff)": every table entry that may legitimately be dropped carries mass <= 1e-14,
+        # and there are at most (#prefixes of the tree + 1) entries; plus binary64 slack
+        slack = N * (tree_size(probs) + 1) * ATOL + (N / 10**13 if exact else N / 10**9)
         if abs(tot - N) > slack:
-            problems.append(f"weights sum to {float(tot)} not N={float(N)} (slack {float(slack)})")
+            problems.append(f"weights sum to {float(tot)!r} not N={float(N)} (deficit {float(N - tot):.3e}, slack {float(slack):.3e})")
     return dict(violates=bool(problems), detail="; ".join(problems[:6]) or "ok")
 
 
@@ -806,7 +831,7 @@ def judge_law(case):
     ew = {tuple(k): unq(x) for k, x in case["expected"]}
     exact_keys = {tuple(k) for k in case["exact_keys"]}
     problems = []
-    slack = N / 10**9 + N * ATOL * 2
+    slack = N / 10**12 + N * ATOL * 2
     for k, p in jt.items():
         if k in exact_keys:
             continue
@@ -816,13 +841,22 @@ def judge_law(case):
 
 
 def judge_yields(case):
-    """generator level: full states = exactly the maps with product >= thr (for descending input), each once;
-    the tables reproduce the mass of every other map (telescoping), up to the cut-off."""
+    """generator level, straight from the property text:
+    (1) full states = exactly the maps with product >= thr (for descending input), each once, with its probability;
+    (2) tail law implied by the tables (product of the table entries along the prefix, the base probabilities where no
+        table was yielded; the top table is not normalised, so the product is the absolute mass): for every map below
+        the threshold with p > cutoff the implied mass equals p, hence implied probability == p / (non-exact mass);
+    (3) no table zeroes an entry whose true conditional mass exceeds the 1e-14 cut-off."""
     probs = [[unq(x) for x in v] for v in case["probs"]]
     thr = unq(case["thr"])
     if case["kind"] == "sorted" and any(v != sorted(v, reverse=True) for v in probs):
         return dict(violates=False, detail="input violates the documented precondition (descending); property silent")
+    if any(x < 0 for v in probs for x in v) or not probs or any(len(v) == 0 for v in probs):
+        return dict(violates=False, detail="not probability vectors; property silent")
+    if case["impl"] and case["impl"][0][0] == "X":
+        return dict(violates=True, detail=f"the generator raised on a valid input: {case['impl'][0][1]}")
     jt = joint_table(probs)
+    D = len(probs)
     full = {}
     cond = {}
     problems = []
@@ -839,29 +873,52 @@ def judge_yields(case):
         problems.append(f"exact states {sorted(set(full) ^ want)[:5]} differ from brute force")
     for k, p in full.items():
         if k in jt and p != jt[k]:
-            problems.append(f"state {k}: probability {float(p)} != {float(jt[k])}")
-    tol = Fraction(1, 10**9)
+            problems.append(f"state {k}: probability {float(p)!r} != {float(jt[k])!r}")
+    cut = ATOL * Fraction(101, 100)
     for k, p in jt.items():
-        if k in full:
+        if k in want or p <= cut:
             continue
         m = Fraction(1)
-        for d in range(len(k)):
+        for d in range(D):
             tab = cond.get(k[:d], probs[d])
-            m *= tab[k[d]]
-        if abs(m - p) > tol + ATOL * 2:
-            problems.append(f"map {k}: table product {float(m)} != p {float(p)}")
+            m *= tab[k[d]] if k[d] < len(tab) else 0
+        if abs(m - p) > p / 10**12:
+            problems.append(f"tail map {k}: mass implied by the tables {float(m)!r} != p = {float(p)!r}")
+            if len(problems) > 8:
+                break
+    # (3) zeroed entries
+    for pre, tab in cond.items():
+        d = len(pre)
+        if d >= D or len(tab) != len(probs[d]):
+            problems.append(f"table for {pre} has the wrong shape")
+            continue
+        pp = Fraction(1)
+        for j, i in enumerate(pre):
+            pp *= probs[j][i]
+        if pp == 0:
+            continue
+        for i, x in enumerate(tab):
+            if x != 0:
+                continue
+            below = sum(p for k, p in jt.items() if k[:d + 1] == pre + (i,) and k not in want)
+            if below / pp > cut:
+                problems.append(f"table {pre} zeroes entry {i} whose conditional non-exact mass is {float(below / pp):.3e} > cutoff")
     return dict(violates=bool(problems), detail="; ".join(problems[:6]) or "ok")
 
 
 def judge(case):
-    k = case["kind"]
-    if k == "weights":
-        return judge_weights(case)
-    if k == "law":
-        return judge_law(case)
-    if k in ("sorted", "unsorted"):
-        return judge_yields(case)
-    raise ValueError(k)
+    """total: never raises; an input outside the property's range gives violates=False."""
+    try:
+        k = case.get("kind")
+        if k == "weights":
+            return judge_weights(case)
+        if k == "law":
+            return judge_law(case)
+        if k in ("sorted", "unsorted"):
+            return judge_yields(case)
+        return dict(violates=False, detail=f"unknown case kind {k!r}")
+    except Exception as e:  # noqa: BLE001
+        return dict(violates=False, detail=f"oracle not applicable: {type(e).__name__}: {e}")
 
 
 # --------------------------------------------------------------------------------------
@@ -871,11 +928,11 @@ def rerun(case):
     k = case["kind"]
     probs = [[unq(x) for x in v] for v in case["probs"]]
     if k == "sorted":
-        ys = canon_yields(GEN_SORTED(arrays(probs), float(unq(case["thr"]))))
-        case["impl"] = [jyield(y) for y in ys]
+        ys, err = run_yields(GEN_SORTED, arrays(probs), float(unq(case["thr"])))
+        case["impl"] = jimpl(ys, err)
     elif k == "unsorted":
-        ys = canon_yields(GEN_UNSORTED(arrays(probs), float(unq(case["thr"]))))
-        case["impl"] = [jyield(y) for y in ys]
+        ys, err = run_yields(GEN_UNSORTED, arrays(probs), float(unq(case["thr"])))
+        case["impl"] = jimpl(ys, err)
     elif k == "weights":
         N = unjnum(case["N"])
         tape = list(case["tape"])
